@@ -1,5 +1,7 @@
 import Uom.Proofs.Exact
 import Uom.Proofs.OpsExact
+import Uom.Proofs.BodyEq.Conv
+import Uom.Proofs.BodyEq.Storage
 /-!
 # C08 — exact storage converts exactly; integer storage truncates toward zero
 
@@ -98,5 +100,37 @@ example : fromBase ratS (381 / 1250) 0 1 (toBase ratS (381 / 1250) 0 1 5) = 5 :=
 /-- non-vacuity (integers): −7 half-units truncate toward zero to −3 -/
 example : toBase intS (1 / 2) 0 1 (-7) = -3 := by
   rw [new_int]; decide +kernel
+
+/-! ### tie to the source: the function bodies regenerated from /repo/src on this run
+
+`Gen.Body.*` below is what the translator read from the Rust source just now; `Body.run` evaluates it
+over any storage type.  These theorems state the property's code path *for the regenerated bodies*:
+they fail to check as soon as the source computes something else. -/
+section SourceTie
+open Uom.Body Uom.Gen.Body
+
+/-- construction and reading are `toBase` / `fromBase` for exact and integer storage too -/
+theorem src_new (N : NumTy) (env : Env N) (v : N.S.V) :
+    run N env quantity_inherent_quantity_new [argV v]
+      = argQ (toBase N.S env.nCoef env.nConsA (env.bf .U .Dimension) v) := BodyEq.new_eq N env v
+theorem src_get (N : NumTy) (env : Env N) (a : N.S.V) :
+    run N env quantity_inherent_quantity_get [argQ a]
+      = argV (fromBase N.S env.nCoef env.nConsS (env.bf .U .Dimension) a) := BodyEq.get_eq N env a
+
+/-- the `conv` / `value` fields of the storage algebras are what src/lib.rs implements: rationals are
+    their own factor type (identity both ways); integers become ratios via `into()` and come back via
+    `Ratio::to_integer()` — truncation toward zero, `intS.value = ratTrunc` -/
+theorem src_storage (N : NumTy) (env : Env N) (x : Val N) :
+    run N env lib_Conversion_V_for_V_conversion_Rational_Rational32_Rational64 [x] = x ∧
+    run N env lib_ConversionFactor_V_for_V_value_Rational_Rational32_Rational64 [x] = x ∧
+    run N env lib_Conversion_V_for_V_conversion_BigRational [x] = env.fwd m_clone [x] ∧
+    run N env lib_ConversionFactor_V_for_V_value_BigRational [x] = x ∧
+    run N env lib_Conversion_V_for_V_conversion_PrimInt [x] = env.fwd m_into [x] ∧
+    run N env lib_ConversionFactor_V_for_Ratio_value_PrimInt [x] = env.fwd m_to_integer [x] ∧
+    run N env lib_Conversion_V_for_V_conversion_BigInt_BigUint [x] = env.fwd m_into [env.fwd m_clone [x]] ∧
+    run N env lib_ConversionFactor_V_for_Ratio_value_BigInt_BigUint [x] = env.fwd m_to_integer [x] :=
+  ⟨rfl, rfl, rfl, rfl, rfl, rfl, rfl, rfl⟩
+
+end SourceTie
 
 end Uom.C08
